@@ -63,6 +63,8 @@ func runC12(c *core.Ctx) {
 	// whole server down (rule shared with C16)
 	c.Doc("C16.mailbox", "mailboxes are never closed (Receive sends to a mailbox after releasing the service lock)", 1)
 	ruleMailboxNeverClosed(c)
+	c.Doc("C12.bounded-service", "the goroutine serving an object waits for no client without bound: answers are written with a write deadline, nothing on its path sleeps", 2)
+	ruleBoundedService(c, a, "C12.bounded-service")
 }
 
 // ruleBusLocks: lock pairing over the whole bus tree and no blocking channel
@@ -534,4 +536,150 @@ func ruleNoPanicInReceive(c *core.Ctx) {
 		}
 	}
 	c.Pass(rule, "reachable-set", token.NoPos, fmt.Sprintf("%d functions reachable from %d Receive implementations scanned, %d explicit panics", len(seen), len(roots), n))
+}
+
+// ruleBoundedService: "every object keeps answering other clients' calls within
+// bounded time".  One goroutine per object takes the mails out of the object's
+// mailbox and runs Receive; whatever that goroutine can wait for without bound,
+// on behalf of one client, every other client of the object waits for too.  Two
+// waits are decided here, over the VTA call graph from the serving goroutine:
+//
+//   - write-deadline: a function of bus/net that hands the end point's stream to
+//     a writer is reachable (the reply is written synchronously); it must set a
+//     write deadline on that stream first, otherwise a peer that stops reading
+//     holds the goroutine inside Write once the socket buffer is full, for as
+//     long as it keeps the connection open;
+//   - sleep: no time.Sleep on that path (a retry/back-off in a handler or in the
+//     send path stalls the object for every client).
+func ruleBoundedService(c *core.Ctx, a *epAnchors, rule string) {
+	mb := c.Func("bus", "", "NewMailBox")
+	if mb == nil {
+		c.Undecided(rule, "bus.NewMailBox", token.NoPos, "anchor not found")
+		return
+	}
+	var roots []*ssa.Function
+	for _, f := range core.AnonFuncs(mb) {
+		for _, call := range core.Calls(f) {
+			if cc := call.Common(); cc.IsInvoke() && cc.Method.Name() == "Receive" {
+				roots = append(roots, f)
+				break
+			}
+		}
+	}
+	if len(roots) == 0 {
+		c.Undecided(rule, "bus.NewMailBox/serving-goroutine", mb.Pos(), "no goroutine of NewMailBox invokes Receiver.Receive: the serving goroutine was not recognised")
+		return
+	}
+	cg := c.VTA()
+	parent := map[*ssa.Function]*ssa.Function{}
+	seen := map[*ssa.Function]bool{}
+	var q []*ssa.Function
+	for _, r := range roots {
+		seen[r] = true
+		q = append(q, r)
+	}
+	var order []*ssa.Function
+	for len(q) > 0 {
+		f := q[0]
+		q = q[1:]
+		order = append(order, f)
+		node := cg.Nodes[f]
+		if node == nil {
+			continue
+		}
+		for _, e := range node.Out {
+			if _, isGo := e.Site.(*ssa.Go); isGo {
+				continue // another goroutine does the waiting
+			}
+			callee := e.Callee.Func
+			if callee == nil || callee.Pkg == nil || !strings.HasPrefix(callee.Pkg.Pkg.Path(), core.Module) || seen[callee] {
+				continue
+			}
+			p := callee.Pkg.Pkg.Path()
+			if strings.Contains(p, "/examples/") || strings.Contains(p, "/cmd/") || c.IsTestFile(callee) {
+				continue
+			}
+			seen[callee] = true
+			parent[callee] = f
+			q = append(q, callee)
+		}
+	}
+	pathTo := func(f *ssa.Function) string {
+		var names []string
+		for x := f; x != nil; x = parent[x] {
+			names = append([]string{core.FuncKey(x)}, names...)
+			if len(names) > 12 {
+				break
+			}
+		}
+		return strings.Join(names, " -> ")
+	}
+	nw := 0
+	for _, f := range order {
+		if !strings.HasSuffix(f.Pkg.Pkg.Path(), "/bus/net") {
+			continue
+		}
+		// hands the end point's stream to a writer: Message.Write(e.stream), e.stream.Write(…)
+		var write ssa.Instruction
+		for _, call := range core.Calls(f) {
+			cc := call.Common()
+			uses := false
+			if cc.IsInvoke() && cc.Method.Name() == "Write" && isFieldOf(cc.Value, a.stream) {
+				uses = true
+			}
+			for _, arg := range cc.Args {
+				if isFieldOf(arg, a.stream) || isFieldOf(core.Strip(arg), a.stream) {
+					if !cc.IsInvoke() && cc.StaticCallee() != nil && strings.Contains(cc.StaticCallee().Name(), "Write") {
+						uses = true
+					}
+				}
+			}
+			if uses {
+				write = call.(ssa.Instruction)
+				break
+			}
+		}
+		if write == nil {
+			continue
+		}
+		nw++
+		// keyed by what is written to, not by the function that does it: extracting the
+		// write into a helper is the same finding
+		key := "write-deadline@endpoint-stream"
+		setsDeadline := func(x ssa.Instruction) bool {
+			call, ok := x.(ssa.CallInstruction)
+			if !ok {
+				return false
+			}
+			cc := call.Common()
+			name := ""
+			if cc.IsInvoke() {
+				name = cc.Method.Name()
+			} else if sf := cc.StaticCallee(); sf != nil {
+				name = sf.Name()
+			}
+			return name == "SetWriteDeadline" || name == "SetDeadline"
+		}
+		if core.MustPassBefore(f, write, setsDeadline) {
+			c.Pass(rule, key, write.Pos(), "a write deadline is set before the stream write reachable from the serving goroutine")
+			continue
+		}
+		c.Fail(rule, key, write.Pos(), "the serving goroutine of an object writes its answers to the client's stream here ("+pathTo(f)+") and no write deadline is ever set on that stream: a client that sends calls and stops reading holds the goroutine inside Write once the socket buffer is full, and every other client's call to that object waits for as long as the connection stays open")
+	}
+	if nw == 0 {
+		c.Undecided(rule, "stream-write", token.NoPos, "no stream write of bus/net is reachable from the serving goroutine: the way answers are written was not recognised")
+	}
+	ns := 0
+	for _, f := range order {
+		if !strings.Contains(f.Pkg.Pkg.Path(), "/bus") {
+			continue
+		}
+		for _, call := range core.Calls(f) {
+			if sf := call.Common().StaticCallee(); sf != nil && core.FuncKey(sf) == "time.Sleep" {
+				ns++
+				c.Fail(rule, fmt.Sprintf("sleep@%s#%d", core.FuncKey(f), ns), call.Pos(), "the serving goroutine of an object can sleep here ("+pathTo(f)+"): while it does, no client of that object is answered")
+			}
+		}
+	}
+	c.Pass(rule, "reachable-set", token.NoPos, fmt.Sprintf("%d functions reachable from the serving goroutine of NewMailBox scanned: %d stream writes, %d sleeps", len(order), nw, ns))
 }
